@@ -281,13 +281,27 @@ func (P) Exec(c *harness.Case) *harness.Outcome {
 			nr := *rule
 			br := *rule.Rule
 			nr.Rule, nr.RecycleIntervalS = &br, cfg.RecycleS
+			replaced := false
 			harness.Call(o, "C20.panic", step, func() {
-				if _, err := outlier.LoadRules([]*outlier.Rule{&nr}); err != nil {
+				var err error
+				if replaced, err = outlier.LoadRules([]*outlier.Rule{&nr}); err != nil {
 					o.Fail("C20.load-error", step, "%v", err)
 				}
 			})
 			if o.Failed() {
 				return o
+			}
+			if replaced {
+				// the recycle schedule belongs to the rule it was made under: with another rule in force, the
+				// pending recycles are void (a node that is still ejected is scheduled again, with the new
+				// interval, by the next request that finds it so) - a node that has served requests is not
+				// removed by the timer of a rule that is gone
+				mu.Lock()
+				for _, n := range nodes {
+					n.pending, n.recovered, n.checked = false, false, false
+				}
+				mu.Unlock()
+				o.Probe("rule_replaced_with_recycles_pending")
 			}
 			o.Probe("rule_reloaded_with_another_recycle_interval")
 		case "other":
